@@ -11,8 +11,9 @@ VERIF = Path(__file__).resolve().parent.parent
 REPO = Path(os.environ.get("VERIF_REPO", "/repo")).resolve()
 SRC = REPO / "src"
 DEPS = VERIF / ".deps"
-EVIDENCE = VERIF / "evidence"
-REPLAYS = VERIF / "replays"
+# VERIF_EVIDENCE_DIR redirects outputs when the checks are pointed at a scratch copy (mutant runs)
+EVIDENCE = Path(os.environ["VERIF_EVIDENCE_DIR"]) if os.environ.get("VERIF_EVIDENCE_DIR") else VERIF / "evidence"
+REPLAYS = (EVIDENCE.parent / "replays") if os.environ.get("VERIF_EVIDENCE_DIR") else VERIF / "replays"
 WORK = VERIF / ".work"  # git-ignored scratch (worker result files)
 PY = os.environ.get("VERIF_PY", "/venv/bin/python")
 NCPU = max(1, min(16, os.cpu_count() or 1))
